@@ -197,3 +197,9 @@ pub fn print_stdout_with_capture(info: &str, cr: &mut CommandResult,
         print_stdout(info, cmd, cl);
     }
 }
+
+#[cfg(cicada_verif)]
+pub mod verif_hooks {
+    use super::*;
+    pub fn get_std_fds(redirects: &[Redirection]) -> (Option<RawFd>, Option<RawFd>) { super::_get_std_fds(redirects) }
+}
